@@ -26,6 +26,6 @@ For each change deliver, in the directory {wt}/seed_out/<name>/ (name = short-ke
   - demo.py : a small standalone program that exits 0 on the pristine code and exits non-zero (assertion failure) with the change applied. It must only use the public or semi-public nutils API and run in well under a minute.
   - notes.md : which property it breaks, what it needs in order to manifest, and which existing test files you ran to confirm they still pass.
 
-Procedure per change: (1) make the edit; (2) run the most relevant existing test modules, e.g. `cd {wt} && OMP_NUM_THREADS=1 OPENBLAS_NUM_THREADS=1 PYTHONPATH={wt}/src /venv/bin/python -m pytest -q -p no:cacheprovider -x -n 3 tests/test_<module>.py` for the one to three test modules that exercise the code you touched most directly (do NOT run the whole test suite: the machine is shared and a full run takes very long; pick the modules by grepping the tests for the functions/classes you changed) (note: tests in tests/test_mesh.py for gmsh fail on the pristine tree already, ignore those) - if a test fails, your change is too visible: revise it; (3) write demo.py and confirm it fails with the change and passes without (use `git stash` or `git apply -R`); (4) save patch.diff, then revert the worktree (`git checkout -- src`) before starting the second change so the two patches are independent.
+Procedure per change: (1) make the edit; (2) run the most relevant existing test modules, e.g. `cd {wt} && OMP_NUM_THREADS=1 OPENBLAS_NUM_THREADS=1 PYTHONPATH={wt}/src /venv/bin/python -m pytest -q -p no:cacheprovider -x -n 3 tests/test_<module>.py` for the one to three test modules that exercise the code you touched most directly (do NOT run the whole test suite: the machine is shared and a full run takes very long; pick the modules by grepping the tests for the functions/classes you changed) (note: tests in tests/test_mesh.py for gmsh fail on the pristine tree already, ignore those) - if a test fails, your change is too visible: revise it; (3) write demo.py and confirm it fails with the change and passes without (use `git diff > /tmp/<name>.diff` and `git apply -R /tmp/<name>.diff`; do NOT use `git stash`: the stash is shared between all worktrees of the repository and other people work in other worktrees); (4) save patch.diff, then revert the worktree (`git checkout -- src`) before starting the second change so the two patches are independent.
 
 Finish by listing the directories you produced and, for each, a one-paragraph description. Do NOT remove the worktree; leave {wt} in a clean state (`git status` shows only seed_out/ as untracked).''')
